@@ -485,15 +485,18 @@ theorem channel_read_map_eq (s : CChannel) (r : CReader) (hw : Wf s)
     absRd (channel_read_map s r).2.2 = (readMap (abs s) (absRd r)).2.1 ∧
     (channel_read_map s r).1.2 = (channel_read_map s r).1.1 + (readMap (abs s) (absRd r)).2.2.len ∧
     ((readMap (abs s) (absRd r)).2.2.len ≠ 0 → (channel_read_map s r).1.1 = s.data + (readMap (abs s) (absRd r)).2.2.beg) ∧
-    (channel_read_map s r).2.1.blocked = s.blocked ∧ (channel_read_map s r).2.1.data = s.data ∧ Wf (channel_read_map s r).2.1 := by
-  obtain ⟨e1, e2, _, e4, e5, e6, e7, e8, e9⟩ := reader_initialize_eq s r hroom
+    (channel_read_map s r).2.1.blocked = s.blocked ∧ (channel_read_map s r).2.1.data = s.data ∧ Wf (channel_read_map s r).2.1 ∧
+    -- a bookmark that moves releases space: the writer is notified (at most once per call)
+    ((readMap (abs s) (absRd r)).1.holds ≠ (readerInit (abs s) (absRd r)).1.holds → (channel_read_map s r).2.1.notified = s.notified + 1) ∧
+    ((channel_read_map s r).2.1.notified = s.notified ∨ (channel_read_map s r).2.1.notified = s.notified + 1) := by
+  obtain ⟨e1, e2, e3, e4, e5, e6, e7, e8, e9⟩ := reader_initialize_eq s r hroom
   unfold channel_read_map readMap
   cases hri : reader_initialize s r with
   | mk ret p =>
     cases p with
     | mk s1 r1 =>
-      rw [hri] at e1 e2 e4 e5 e6 e7 e8 e9
-      simp only at e1 e2 e4 e5 e6 e7 e8 e9
+      rw [hri] at e1 e2 e3 e4 e5 e6 e7 e8 e9
+      simp only at e1 e2 e3 e4 e5 e6 e7 e8 e9
       have hid1 : r1.id ≤ s1.holds_n := by
         by_cases h0 : r.id = 0
         · rw [e9 h0]; exact Nat.le_refl _
@@ -514,7 +517,7 @@ theorem channel_read_map_eq (s : CChannel) (r : CReader) (hw : Wf s)
         rw [hg]
         generalize hP : s1.holds_pos.getD (r1.id - 1) 0 = P
         generalize hC : s1.holds_cycles.getD (r1.id - 1) 0 = Cy
-        rw [← e5, ← e4]
+        rw [← e5, ← e4, ← e3]
         dsimp only [abs, absRd]
         by_cases hm : r1.state = ChannelState_Mapped
         · (simp_all [abs, absRd, Wf, holdsOf_set_pos, holdsOf_set_cyc, List.set_set, getD_set, ChannelState_Mapped, ChannelState_Unmapped,
